@@ -49,6 +49,7 @@ def main() -> int:
     ap.add_argument("--rev", default=None)
     ap.add_argument("--patch", default=None)
     ap.add_argument("--sub", nargs=3, action="append", metavar=("FILE", "OLD", "NEW"), default=[])
+    ap.add_argument("--suball", nargs=3, action="append", metavar=("FILE", "OLD", "NEW"), default=[], help="replace every occurrence (word-bounded)")
     a = ap.parse_args()
     overlay = overlay_from_rev(a.rev, a.files) if a.rev else {}
     if a.patch:
@@ -59,6 +60,10 @@ def main() -> int:
             print(f"substitution anchor found {text.count(old)} times in {f}")
             return 3
         overlay[f] = text.replace(old, new)
+    for f, old, new in a.suball:
+        import re
+        text = overlay.get(f) or open(f"/repo/{f}").read()
+        overlay[f] = re.sub(r"(?<![A-Za-z0-9_])" + re.escape(old) + r"(?![A-Za-z0-9_])", new, text)
     try:
         rc, ctx = run_property(a.prop.upper(), "quick", 0, overlay=overlay, write_evidence=False)
     except AnalysisError as e:
